@@ -31,6 +31,18 @@ func (x *Exec) valueOf(fr *Frame, v ssa.Value) Val {
 	panic(fmt.Sprintf("valueOf: no value for %s (%T) in %s", v.Name(), v, fr.fn))
 }
 
+// fpArith: IEEE arithmetic (round to nearest even) on floats is kept opaque: fadd32(a, b) etc. are
+// uninterpreted functions declared in the prelude, so two results are known to be equal exactly
+// when the operation and the operands are. No obligation of the claimed properties needs the
+// numeric value of a sum or product; comparisons, negation, abs and conversions are interpreted.
+func fpArith(op, sort, a, b string) string {
+	w := "64"
+	if sort == SF32 {
+		w = "32"
+	}
+	return sx("f"+op+w, a, b)
+}
+
 func fpLit32(f float32) string {
 	b := math.Float32bits(f)
 	return fmt.Sprintf("(fp #b%01b #b%08b #b%023b)", b>>31, (b>>23)&0xff, b&0x7fffff)
@@ -721,14 +733,8 @@ func (x *Exec) binop(fr *Frame, op token.Token, a, b Val, rt types.Type, hint st
 	case isFloat(t):
 		ai, bi := a.C[0], b.C[0]
 		switch op {
-		case token.ADD:
-			return Val{T: rt, C: []string{sx("fp.add", "RNE", ai, bi)}}
-		case token.SUB:
-			return Val{T: rt, C: []string{sx("fp.sub", "RNE", ai, bi)}}
-		case token.MUL:
-			return Val{T: rt, C: []string{sx("fp.mul", "RNE", ai, bi)}}
-		case token.QUO:
-			return Val{T: rt, C: []string{sx("fp.div", "RNE", ai, bi)}}
+		case token.ADD, token.SUB, token.MUL, token.QUO:
+			return Val{T: rt, C: []string{fpArith(map[token.Token]string{token.ADD: "add", token.SUB: "sub", token.MUL: "mul", token.QUO: "div"}[op], layout(t)[0].Sort, ai, bi)}}
 		case token.EQL:
 			return boolVal(sx("fp.eq", ai, bi))
 		case token.NEQ:
